@@ -53,6 +53,16 @@ func ZZ_C13_Cond() {
 	// known finding at the pinned commit: an $if opened inside an inactive block is evaluated
 	// on its own. Programs containing such a block are asserted under labels of their own.
 	nestedInInactive := false
+	// ... and a 'set keymap' inside such a block leaks into the binds that follow it
+	keymapLeak := false
+	inNestedInactive := func() bool {
+		for _, f := range stack {
+			if !f.parent {
+				return true
+			}
+		}
+		return false
+	}
 	for i := 0; i < d; i++ {
 		kind := zzverif.IntRange("kind"+strconv.Itoa(i), 0, 8)
 		idx := strconv.Itoa(i)
@@ -96,6 +106,8 @@ func ZZ_C13_Cond() {
 			text += "set keymap " + k + "\n"
 			if curActive() {
 				keymap = k
+			} else if inNestedInactive() {
+				keymapLeak = true
 			}
 		case 6:
 			on := zzverif.Bool("v" + idx)
@@ -130,9 +142,13 @@ func ZZ_C13_Cond() {
 
 	// every expected bind is present in its keymap with action and macro flag as written
 	nExpected := 0
+	ksfx := ""
+	if keymapLeak {
+		ksfx = "/keymap-set-in-if-nested-in-inactive-block"
+	}
 	for seq, e := range binds {
 		b, ok := cfg.Binds[e.keymap][seq]
-		zzverif.Assert(ok && b.Action == e.action && b.Macro == e.macro, "active-bind-recorded")
+		zzverif.Assert(ok && b.Action == e.action && b.Macro == e.macro, "active-bind-recorded"+ksfx)
 		nExpected++
 	}
 	// and nothing else was bound anywhere
